@@ -4,6 +4,7 @@
 #include "vmutil.hpp"
 #include "cases.hpp"
 #include "dataset.hpp"
+#include "directed_inputs.hpp"
 #include <thread>
 #include <mutex>
 #include <array>
@@ -184,6 +185,9 @@ RXV_SUBCOMMAND(c01) {
 			const uint64_t nSweep = args.num("sweep", thorough ? 600 : 64);
 			std::vector<std::vector<uint8_t>> sin;
 			for (uint64_t i = 0; i < nSweep; ++i) sin.push_back(cases::makeInput(rng, 100 + i));
+			// committed inputs whose first program has the dataset-offset field at / next to an end of its range (2^-19 per program
+			// otherwise; see directed_inputs.hpp): the configurations add that offset in four different places
+			for (const FixedDirected& fd : kFixedDirected) { sin.emplace_back((const uint8_t*)fd.input, (const uint8_t*)fd.input + strlen(fd.input)); R.count("fast_sweep_directed_inputs"); }
 			std::vector<VmCfg> fv;
 			for (int e = 0; e < 4; ++e) for (int aes = 0; aes < 2; ++aes) {
 				if (aes && !(hw & RANDOMX_FLAG_HARD_AES)) continue;
@@ -228,6 +232,7 @@ RXV_SUBCOMMAND(c01) {
 			const uint64_t nLight = args.num("lightsweep", thorough ? 6000 : 768);
 			std::vector<std::vector<uint8_t>> lin;
 			for (uint64_t i = 0; i < nLight; ++i) lin.push_back(cases::makeInput(rng, 100 + i));
+			for (const FixedDirected& fd : kFixedDirected) { lin.emplace_back((const uint8_t*)fd.input, (const uint8_t*)fd.input + strlen(fd.input)); R.count("light_sweep_directed_inputs"); }
 			std::vector<std::array<uint8_t, 32>> ref[2]; ref[0].resize(lin.size()); ref[1].resize(lin.size());
 			R.setCase("{\"key\":\"" + keyHex + "\",\"stage\":\"light-mode sweep: reference\"}");
 			{
